@@ -132,6 +132,20 @@ thread_local! {
     /// that re-enters one of them would observe stale storage in this model, so it is a machinery error.
     static BUSY: RefCell<Vec<String>> = RefCell::new(Vec::new());
     static MACHINERY: RefCell<Option<String>> = RefCell::new(None);
+    /// > 0 while contract code runs under catch_unwind (its panics are transaction failures, not harness bugs)
+    static IN_CONTRACT: std::cell::Cell<u32> = std::cell::Cell::new(0);
+}
+struct InContract;
+impl InContract {
+    fn enter() -> InContract {
+        IN_CONTRACT.with(|c| c.set(c.get() + 1));
+        InContract
+    }
+}
+impl Drop for InContract {
+    fn drop(&mut self) {
+        IN_CONTRACT.with(|c| c.set(c.get().saturating_sub(1)));
+    }
 }
 
 pub fn machinery_error() -> Option<String> {
@@ -531,6 +545,7 @@ impl Chain {
                 BUSY.with(|b| b.borrow_mut().push(contract.to_string()));
                 let r = {
                     let q = ChainQuerier { chain: &*self };
+                    let _g = InContract::enter();
                     catch_unwind(AssertUnwindSafe(|| {
                         let deps = DepsMut { storage: &mut store, api: &api, querier: QuerierWrapper::new(&q) };
                         exec_contract(kind, deps, env, info, msg)
@@ -677,6 +692,7 @@ impl Chain {
         let api = MockApi::default();
         let r = {
             let q = ChainQuerier { chain: &*self };
+            let _g = InContract::enter();
             catch_unwind(AssertUnwindSafe(|| -> Result<Response, String> {
                 let deps = DepsMut { storage: &mut store, api: &api, querier: QuerierWrapper::new(&q) };
                 macro_rules! i {
@@ -720,7 +736,10 @@ impl Chain {
         let api = MockApi::default();
         let deps = Deps { storage: store, api: &api, querier: QuerierWrapper::new(self.as_querier_ref()) };
         let env = self.env(contract_addr);
-        let r = catch_unwind(AssertUnwindSafe(|| query_contract(*kind, deps, env, msg, self)));
+        let r = {
+            let _g = InContract::enter();
+            catch_unwind(AssertUnwindSafe(|| query_contract(*kind, deps, env, msg, self)))
+        };
         match r {
             Ok(Ok(b)) => SystemResult::Ok(ContractResult::Ok(b)),
             Ok(Err(e)) => SystemResult::Ok(ContractResult::Err(e)),
@@ -832,11 +851,18 @@ impl Querier for Chain {
     }
 }
 
+/// run `f` with panic messages silenced; the caller catches the unwind and reports it in its own way
+pub fn quiet_panics<T>(f: impl FnOnce() -> T) -> T {
+    let _g = InContract::enter();
+    f()
+}
+
 pub fn install_silent_panic_hook() {
     std::panic::set_hook(Box::new(|info| {
         let s = info.to_string();
-        if s.contains("MACHINERY") || s.contains("krpmc") {
-            eprintln!("{}", s);
+        let in_contract = IN_CONTRACT.with(|c| c.get()) > 0;
+        if !in_contract || s.contains("MACHINERY") || s.contains("krpmc") {
+            eprintln!("krpmc MACHINERY panic (harness code, not a verdict): {}", s);
         }
     }));
 }
